@@ -47,6 +47,10 @@ pub fn tok_menu() -> Vec<String> {
     for w in [6usize, 7, 8, 14, 15, 16] {
         m.push(format!("|\n{sp}a\n{sp}", sp = " ".repeat(w)));
     }
+    // block-scalar lines longer than the look-ahead buffer, ended by LF / CRLF / a lone CR (the raw
+    // content-line path of the buffered back-end)
+    m.push(format!("|\n {}\n b\n", "a".repeat(20)));
+    m.push(format!(">\n {}\r\n {}\r c", "a".repeat(17), "b".repeat(33)));
     // percent-escaped multi-byte characters in tags (positions after them)
     m.push("!e%C3%A9 ".into());
     m.push("!<tag:%E2%82%AC> ".into());
